@@ -14,6 +14,8 @@ MODULES = {
     "C07": ["contracts.externals", "contracts.codec_headers", "contracts.codec"],
     "C09": ["contracts.externals", "contracts.types_named", "contracts.codec_headers", "contracts.ezsp_protocol", "contracts.ezsp", "contracts.ezsp_config"],
     "C16": ["contracts.externals", "contracts.types_named", "contracts.codec_headers", "contracts.ezsp_protocol", "contracts.ezsp", "contracts.ezsp_config"],
+    "C15": ["contracts.externals", "contracts.types_named", "contracts.multicast"],
+    "C19": ["contracts.externals", "contracts.types_named", "contracts.application"],
     "C03": ["contracts.externals", "contracts.ash", "contracts.ash_wire"],
 }
 
